@@ -135,15 +135,19 @@ func families() []*tr.Family {
 	claims.TypeVars = []string{"Ctx", "PV", "Err"}
 
 	names := []string{}
-	for _, a := range [][2]string{{"AssertIssuer", "issuerRefused"}, {"AssertAudience", "audienceRefused"},
-		{"AssertIssuanceTime", "issuanceRefused"}, {"AssertScopes", "scopesRefused"}} {
-		claims.Funcs = append(claims.Funcs, tr.FuncAtom{Fun: "exp." + a[0], Args: []string{"*"}, Lean: a[1],
+	// the argument each assertion is called with is part of the table: the claim of the receiver it is about (any
+	// other argument makes the translation fail closed); which scopes claim is handed on is left to the
+	// correspondence run
+	for _, a := range [][3]string{{"AssertIssuer", "issuerRefused", "recv.Issuer"},
+		{"AssertAudience", "audienceRefused", "recv.Audience"},
+		{"AssertIssuanceTime", "issuanceRefused", "recv.IssuedAt.Time()"}, {"AssertScopes", "scopesRefused", "*"}} {
+		claims.Funcs = append(claims.Funcs, tr.FuncAtom{Fun: "exp." + a[0], Args: []string{a[2]}, Lean: a[1],
 			Res: []tr.TypeSpec{optErr}})
 		claims.Params = append(claims.Params, tr.Param{Name: a[1], Type: "Option Err"})
 		names = append(names, a[1])
 	}
 
-	claims.Funcs = append(claims.Funcs, tr.FuncAtom{Fun: "exp.AssertValidity", Args: []string{"*", "*"}, Lean: "validityRefused",
+	claims.Funcs = append(claims.Funcs, tr.FuncAtom{Fun: "exp.AssertValidity", Args: []string{"recv.NotBefore.Time()", "recv.Expiry.Time()"}, Lean: "validityRefused",
 		Res: []tr.TypeSpec{optErr}})
 	claims.Params = append(claims.Params, tr.Param{Name: "validityRefused", Type: "Option Err"}, nilDeref)
 	names = append(names, "validityRefused", "nilDeref")
